@@ -146,3 +146,11 @@ for _tag, _n, _d, _leaf, _kk, _metric, _tiers in (
       out='the library euclidean_distance (SpacePoint/ASpace machinery); INFINITY as the initial heap content; n > bound; rounding of centroid/radius arithmetic (real-arithmetic reading)',
       assumptions=['real-arithmetic reading of centroid, radius and distance computations', 'k <= number of points'],
       stubs=_TREE_STUBS + (['euclidean metric: harness function sqrt(sum (x1-x2)^2) passed as dist_function'] if _metric == 1 else []))
+
+
+CLAIMS = {'C06': 'Decided: the selection bookkeeping of the moving neighbourhood over a distance-sorted candidate list (sector quota, cycling selection up to nmaxi), '
+                 'the sector index of a candidate (real-arithmetic reading and bit-precise IEEE reading), the ball-tree query (tree built by the real btree_init, Manhattan metric), '
+                 'the heap push as an inductive step, and the (distance, index) sort. Not claimed: candidate filtering/distance (C06.h/i), the Euclidean metric through SpacePoint.'}
+NOTES = {'C06': 'finding on the current tree (replayed natively): C06.g.ieee NeighMoving::_movingSectorDefine returns nsect (one past the last sector) for dx > 0, dy < 0 with '
+                '|dy/dx| below about 4.4e-16, e.g. (dx,dy) = (1,-1e-17): 2*pi - atan(-dy/dx) rounds to 2*pi in IEEE doubles (suspect S8); the value is then used as an index '
+                'into _movingNsect/_movingIsect (size nsect) by _movingSelect. The real-arithmetic reading (C06.g) holds.'}
